@@ -30,6 +30,21 @@ Definition wf_item (i : item) : bool :=
 (* Typed values accepted by WriteAny and how each is turned into an item.
    [None] = WriteAny returns an error (nil slice, empty ID, ...).        *)
 
+(* a secp256k1 point as MarshalBinary writes it: x coordinate and parity of y (the identity is x = 0, even) *)
+Definition cpoint := (N * bool)%type.
+Definition point_bytes (p : cpoint) : bytes := (if snd p then 3 else 2) :: be_bytes 32 (fst p).
+
+(* protocols/cmp/config.Public (all four fields non-nil) *)
+Record cmp_public := mkCmpPublic {
+  cp_ecdsa : cpoint; cp_elgamal : cpoint;
+  cp_paillier : N;                       (* Paillier N *)
+  cp_ped_n : N; cp_ped_s : N; cp_ped_t : N }.
+
+(* protocols/cmp/config.Config, the part WriteTo reads: Threshold (a Go int), RID (None = nil) and the map
+   Public as an association list (a Go map: keys are unique, order is irrelevant -- WriteTo sorts them) *)
+Record cmp_config := mkCmpConfig {
+  cc_threshold : Z; cc_rid : option bytes; cc_public : list (bytes * cmp_public) }.
+
 Inductive hval :=
 | HBytes (b : option bytes)            (* []byte (None = nil)                         *)
 | HBigInt (z : Z)                      (* *big.Int, GobEncode                          *)
@@ -49,7 +64,25 @@ Inductive hval :=
 | HWithDomain (d : bytes) (b : option bytes)  (* hash.BytesWithDomain                 *)
 | HCiphertext (c : N)                  (* *paillier.Ciphertext: 512 bytes              *)
 | HPaillierPK (n : N)                  (* *paillier.PublicKey: minimal bytes of N      *)
-| HPedersen (n s t : N).               (* *pedersen.Parameters: 3 x 256 bytes          *)
+| HPedersen (n s t : N)                (* *pedersen.Parameters: 3 x 256 bytes          *)
+| HExponent (isconst : bool) (coeffs : option (list cpoint))
+                                       (* *polynomial.Exponent: MarshalBinary (None = nil slice) *)
+| HElGamal (l m : cpoint)              (* *elgamal.Ciphertext: L, M                     *)
+| HSchCommitment (c : cpoint)          (* *sch.Commitment                               *)
+| HMessageHash (b : option bytes)      (* frost sign.messageHash (None = nil)           *)
+| HCmpPublic (p : option cmp_public)   (* *config.Public (None = nil pointer)           *)
+| HCmpConfig (c : option cmp_config).  (* *config.Config (None = nil pointer)           *)
+
+(* the constructor number: the tag used on the wire to the harness, "the Go type" of a value *)
+Definition hval_kind (v : hval) : nat :=
+  match v with
+  | HBytes _ => 0 | HBigInt _ => 1 | HNat _ _ => 2 | HInt _ _ => 3 | HModulus _ => 4 | HScalar _ => 5
+  | HPoint _ _ => 6 | HID _ => 7 | HIDSlice _ => 8 | HRID _ => 9 | HCommitment _ => 10
+  | HDecommitment _ => 11 | HThreshold _ => 12 | HRound _ => 13 | HSigMsg _ => 14 | HWithDomain _ _ => 15
+  | HCiphertext _ => 16 | HPaillierPK _ => 17 | HPedersen _ _ _ => 18 | HExponent _ _ => 19
+  | HElGamal _ _ => 20 | HSchCommitment _ => 21 | HMessageHash _ => 22 | HCmpPublic _ => 23
+  | HCmpConfig _ => 24
+  end%nat.
 
 Definition opt_item (d : bytes) (o : option bytes) : option item :=
   match o with Some b => Some (mkItem d b) | None => None end.
@@ -64,6 +97,99 @@ Definition idslice_data (l : list bytes) : bytes :=
 (* the pre-fix encoder: count, then raw concatenation (kept for the regression witness) *)
 Definition idslice_data_v0 (l : list bytes) : bytes :=
   be64 (N.of_nat (length l)) ++ concat l.
+
+(* fxamacker/cbor head (initial byte + shortest-form argument), as Model/Cbor.head *)
+Definition cbor_head (major n : N) : bytes :=
+  if n <? 24 then [major * 32 + n]
+  else if n <? 256 then (major * 32 + 24) :: be_bytes 1 n
+  else if n <? 65536 then (major * 32 + 25) :: be_bytes 2 n
+  else if n <? 4294967296 then (major * 32 + 26) :: be_bytes 4 n
+  else (major * 32 + 27) :: be_bytes 8 n.
+
+(* polynomial.Exponent.MarshalBinary: uint32 count (truncating), then
+   cbor.Marshal(rawExponentData{IsConstant bool; Coefficients []curve.Point}) =
+   a2  6a "IsConstant" f4|f5  6c "Coefficients"  (f6 | array-head  (58 21 <33 bytes>)* ) *)
+Definition exponent_coeff_bytes (p : cpoint) : bytes := 88 :: 33 :: point_bytes p.
+Definition exponent_data (isconst : bool) (coeffs : option (list cpoint)) : bytes :=
+  be32 (match coeffs with Some l => N.of_nat (length l) | None => 0 end)
+  ++ 162 :: 106 :: str "IsConstant"%string ++ (if isconst then 245 else 244)
+  :: 108 :: str "Coefficients"%string
+  ++ match coeffs with
+     | None => [246]
+     | Some l => cbor_head 4 (N.of_nat (length l)) ++ flat_map exponent_coeff_bytes l
+     end.
+
+Definition pedersen_data (n s t : N) : bytes := be_bytes 256 n ++ be_bytes 256 s ++ be_bytes 256 t.
+
+Definition lt_pow2 (n : N) (bits : N) : bool := N.shiftr n bits =? 0.
+
+(* pedersen.Parameters.WriteTo: ErrTooLarge when N, S or T has more than params.BitsIntModN = 2048 bits (TrueLen);
+   before the repair the values were written with FillBytes into 256 bytes whatever their size: [pedersen_data] alone *)
+Definition pedersen_data_opt (n s t : N) : option bytes :=
+  if lt_pow2 n 2048 && lt_pow2 s 2048 && lt_pow2 t 2048 then Some (pedersen_data n s t) else None.
+
+(* config.Public.WriteTo: ECDSA point, ElGamal point, the Paillier modulus (minimal bytes) behind an 8-byte
+   big-endian length, Pedersen parameters -- one after the other into the same buffer *)
+Definition public_data (p : cmp_public) : option bytes :=
+  match pedersen_data_opt (cp_ped_n p) (cp_ped_s p) (cp_ped_t p) with
+  | Some pd => Some (point_bytes (cp_ecdsa p) ++ point_bytes (cp_elgamal p)
+                     ++ be64 (len (be_min (cp_paillier p))) ++ be_min (cp_paillier p) ++ pd)
+  | None => None
+  end.
+
+(* before the repair: the four fields RAW one after the other *)
+Definition public_data_v0 (p : cmp_public) : bytes :=
+  point_bytes (cp_ecdsa p) ++ point_bytes (cp_elgamal p) ++ be_min (cp_paillier p)
+  ++ pedersen_data (cp_ped_n p) (cp_ped_s p) (cp_ped_t p).
+
+(* Go string comparison (bytewise lexicographic) and party.NewIDSlice's sort, on the map entries *)
+Fixpoint key_ltb (a b : bytes) : bool :=
+  match a, b with
+  | [], [] => false
+  | [], _ :: _ => true
+  | _ :: _, [] => false
+  | x :: a', y :: b' => if x <? y then true else if y <? x then false else key_ltb a' b'
+  end.
+Fixpoint insert_entry {A} (e : bytes * A) (l : list (bytes * A)) : list (bytes * A) :=
+  match l with
+  | [] => [e]
+  | f :: l' => if key_ltb (fst f) (fst e) then f :: insert_entry e l' else e :: l
+  end.
+Definition sort_entries {A} (l : list (bytes * A)) : list (bytes * A) := fold_right insert_entry [] l.
+
+(* the Public records of the sorted entries; the first one that fails makes the whole WriteTo fail *)
+Fixpoint publics_data (es : list (bytes * cmp_public)) : option bytes :=
+  match es with
+  | [] => Some []
+  | e :: es' => match public_data (snd e), publics_data es' with
+                | Some d, Some r => Some (d ++ r)
+                | _, _ => None end
+  end.
+
+(* config.Config.WriteTo: ThresholdWrapper(c.Threshold) (int -> uint32 conversion), IDSlice.WriteTo of the sorted
+   keys, the RID behind an 8-byte big-endian length (fails on nil), then Public[j].WriteTo for j in sorted order --
+   all into one buffer *)
+Definition config_data (c : cmp_config) : option bytes :=
+  match cc_rid c with
+  | None => None
+  | Some rid =>
+      let es := sort_entries (cc_public c) in
+      match publics_data es with
+      | Some pubs => Some (be32 (Z.to_N (cc_threshold c mod 4294967296))
+                           ++ idslice_data (map fst es) ++ be64 (len rid) ++ rid ++ pubs)
+      | None => None
+      end
+  end.
+
+(* before the repair: RID and every Public written RAW *)
+Definition config_data_v0 (c : cmp_config) : option bytes :=
+  match cc_rid c with
+  | None => None
+  | Some rid =>
+      let es := sort_entries (cc_public c) in
+      Some (be32 (Z.to_N (cc_threshold c mod 4294967296))
+            ++ idslice_data (map fst es) ++ rid ++ flat_map (fun e => public_data_v0 (snd e)) es)
+  end.
 
 Definition enc_hval (v : hval) : option item :=
   match v with
@@ -92,9 +218,92 @@ Definition enc_hval (v : hval) : option item :=
   | HWithDomain d o => opt_item d o
   | HCiphertext c => Some (mkItem (str "Paillier Ciphertext"%string) (be_bytes 512 c))
   | HPaillierPK n => Some (mkItem (str "Paillier PublicKey"%string) (be_min n))
-  | HPedersen n s t => Some (mkItem (str "Pedersen Parameters"%string)
-                               (be_bytes 256 n ++ be_bytes 256 s ++ be_bytes 256 t))
+  | HPedersen n s t => opt_item (str "Pedersen Parameters"%string) (pedersen_data_opt n s t)
+  | HExponent c co => Some (mkItem (str "Exponent"%string) (exponent_data c co))
+  | HElGamal l m => Some (mkItem (str "ElGamal Ciphertext"%string) (point_bytes l ++ point_bytes m))
+  | HSchCommitment c => Some (mkItem (str "Schnorr Commitment"%string) (point_bytes c))
+  | HMessageHash o => opt_item (str "messageHash"%string) o
+  | HCmpPublic o => match o with
+                    | Some p => opt_item (str "Public Data"%string) (public_data p)
+                    | None => None end
+  | HCmpConfig o => match o with
+                    | Some c => opt_item (str "CMP Config"%string) (config_data c)
+                    | None => None end
   end.
+
+(* the three encoders as they were before the repairs (regression witnesses in Proofs/HvalProofs.v) *)
+Definition enc_hval_v0 (v : hval) : option item :=
+  match v with
+  | HPedersen n s t => Some (mkItem (str "Pedersen Parameters"%string) (pedersen_data n s t))
+  | HCmpPublic (Some p) => Some (mkItem (str "Public Data"%string) (public_data_v0 p))
+  | HCmpConfig (Some c) => opt_item (str "CMP Config"%string) (config_data_v0 c)
+  | _ => enc_hval v
+  end.
+
+(* ------------------------------------------------------------------ *)
+(* Well-formed typed values: the ranges that the Go types enforce (used by Proofs/HvalProofs.v: on these
+   values the encoding is injective per type).  [item_ok]: the written item is inside the framing's domain
+   (bytes < 256, lengths < 2^64).  [range_ok]: per type. *)
+
+Definition secp256k1_p : N := 0xFFFFFFFFFFFFFFFFFFFFFFFFFFFFFFFFFFFFFFFFFFFFFFFFFFFFFFFEFFFFFC2F.
+Definition secp256k1_q : N := 0xFFFFFFFFFFFFFFFFFFFFFFFFFFFFFFFEBAAEDCE6AF48A03BBFD25E8CD0364141.
+Definition wf_cpoint (p : cpoint) : bool := fst p <? secp256k1_p.
+(* the points in range; Pedersen values need no clause any more (out of range = WriteTo fails), nor does the
+   Paillier modulus (length-prefixed) *)
+Definition wf_public (p : cmp_public) : bool :=
+  wf_cpoint (cp_ecdsa p) && wf_cpoint (cp_elgamal p)
+  && (N.of_nat (byte_len (cp_paillier p)) <? 2^64).     (* the length that is written as 8 bytes fits *)
+(* the range clause the pre-fix encoder needed *)
+Definition ped_in_range (p : cmp_public) : bool :=
+  lt_pow2 (cp_ped_n p) 2048 && lt_pow2 (cp_ped_s p) 2048 && lt_pow2 (cp_ped_t p) 2048.
+
+(* IDSlice.Valid on the keys: strictly increasing *)
+Fixpoint keys_sorted (l : list bytes) : bool :=
+  match l with
+  | [] => true
+  | x :: l' => match l' with
+               | [] => true
+               | y :: _ => key_ltb x y && keys_sorted l'
+               end
+  end.
+
+Definition ids_small (l : list bytes) : bool :=
+  forallb (fun id => len id <? 2^64) l && (N.of_nat (length l) <? 2^64).
+
+(* a Config: ValidThreshold's range and a map (unique keys; the association list is its sorted representative).
+   Neither the size of the Paillier moduli nor the RID's length is constrained. *)
+Definition wf_config (c : cmp_config) : bool :=
+  (0 <=? cc_threshold c)%Z && (cc_threshold c <? 4294967296)%Z
+  && keys_sorted (map fst (cc_public c)) && ids_small (map fst (cc_public c))
+  && forallb (fun e => wf_public (snd e)) (cc_public c)
+  && match cc_rid c with Some rid => len rid <? 2^64 | None => true end.
+(* what the pre-fix encoder needed in addition: Pedersen values in range and every Paillier modulus of [w] bytes *)
+Definition wf_config_w (w : nat) (c : cmp_config) : bool :=
+  wf_config c
+  && forallb (fun e => ped_in_range (snd e) && (byte_len (cp_paillier (snd e)) =? w)%nat) (cc_public c).
+
+Definition item_ok (v : hval) : bool :=
+  match enc_hval v with Some i => wf_item i | None => true end.
+
+Definition range_ok (v : hval) : bool :=
+  match v with
+  | HNat k n => n <? 256 ^ N.of_nat k                  (* the announced length IS part of this value *)
+  | HInt k z => Z.abs_N z <? 256 ^ N.of_nat k
+  | HScalar s => s <? secp256k1_q
+  | HPoint x _ => x <? secp256k1_p
+  | HIDSlice (Some l) => ids_small l
+  | HThreshold t => t <? 2^32
+  | HRound r => r <? 2^16
+  | HCiphertext c => lt_pow2 c 4096
+  | HExponent _ (Some l) => forallb wf_cpoint l && (N.of_nat (length l) <? 2^32)
+  | HElGamal l m => wf_cpoint l && wf_cpoint m
+  | HSchCommitment c => wf_cpoint c
+  | HCmpPublic (Some p) => wf_public p
+  | HCmpConfig (Some c) => wf_config c
+  | _ => true
+  end.
+
+Definition wf_hval (v : hval) : bool := item_ok v && range_ok v.
 
 (* WriteAny(data...) stops at the first failing value but keeps what was written before it. *)
 Fixpoint write_any (st : bytes) (vs : list hval) : bytes * bool :=
